@@ -184,6 +184,30 @@ theorem nested_struct_lawful {d : StructDecl} {m : StructMeta} (ha : Accepted d 
 theorem primitives_lawful : (∀ n, Lawful (Codec.uN n)) ∧ (∀ n, Lawful (Codec.iN n)) ∧ Lawful Codec.bool :=
   ⟨lawful_uN, lawful_iN, lawful_bool⟩
 
+/-- Observation on the validator itself: its check "Fields smaller than 8 bits may not cross byte boundaries" can never be
+    the reported error — a field crossing a byte boundary is always refused by the alignment check in front of it. (The
+    harness never sees that message either.) -/
+theorem small_crosses_unreachable (d : StructDecl) : parseStruct d ≠ .error .smallCrosses := by
+  intro h
+  unfold parseStruct at h
+  split at h
+  · rename_i e he
+    simp only [bitWidthAttr] at he
+    split at he
+    · simp only [Except.error.injEq] at he h
+      subst he
+      cases h
+    · cases he
+  · cases h
+  · split at h
+    · cases h
+    · split at h
+      · rename_i e he
+        simp only [Except.error.injEq] at h
+        subst h
+        exact parseFields_not_smallCrosses _ _ he
+      · split at h <;> cases h
+
 /-! ## Enums -/
 
 /-- **enum_roundtrip (full statement).** Every unit variant of the enum packs to bytes that unpack to the same variant.
